@@ -1,4 +1,5 @@
 import Harper.Lemmas.Rules
+import Harper.Lemmas.Pattern
 /-!
 Pattern combinators (`Model/Condense.lean`) and `run_on_chunk` under translation, and their totality:
 what the pattern linter `ModalOf` needs on top of `match_to_lint`.
@@ -449,5 +450,329 @@ theorem modalOf_xlocal (env : Env) : XLocalE (modalOfPiece env) where
 theorem modalOf_ok (env : Env) (src : List Char) (chunk : List Tok) (ho : Ord src.length chunk) :
     ∃ ls, modalOfPiece env src chunk = .ok ls ∧ ∀ l ∈ ls, LintOK src.length l :=
   runOnChunkGo_ok _ modalOfPat_ok _ src (fun l hl => modalOfMatch_ok env src l hl) chunk ho 0
+
+end Harper.Rules
+
+namespace Harper.Rules
+open Harper Harper.Chunks
+
+/-! ## the kind-code model of the pattern framework (`Model/Pattern.lean`) and the token-level one -/
+
+/-- the kind code of `Model/Pattern.lean`'s table (`harness/src/c01_pattern.rs:code`) -/
+def kindCode : Kind → Nat
+  | .word => 0
+  | .space _ => 1
+  | .punct .Period => 2
+  | .punct .Comma => 3
+  | .newline _ => 4
+  | .paragraphBreak => 5
+  | .punct .Bang => 7
+  | .punct .Question => 7
+  | .punct .Colon => 8
+  | .quote _ => 8
+  | _ => 6
+
+def tokCode (t : Tok) : Nat := kindCode t.kind
+
+theorem isChunkTerminator_code (k : Kind) : isChunkTerminator k = Pat.isChunkTerm (kindCode k) := by
+  cases k <;> try rfl
+  rename_i p; cases p <;> rfl
+
+theorem isSentenceTerminator_code (k : Kind) : isSentenceTerminator k = Pat.isSentenceTerm (kindCode k) := by
+  cases k <;> try rfl
+  rename_i p; cases p <;> rfl
+
+theorem isParagraphBreak_code (k : Kind) : k.isParagraphBreak = Pat.isParBreak (kindCode k) := by
+  cases k <;> try rfl
+  rename_i p; cases p <;> rfl
+
+theorem isWord_code (k : Kind) : k.isWord = (kindCode k == 0) := by
+  cases k <;> try rfl
+  rename_i p; cases p <;> rfl
+
+theorem isWhitespace_code (k : Kind) : k.isWhitespace = Pat.isWs (kindCode k) := by
+  cases k <;> try rfl
+  rename_i p; cases p <;> rfl
+
+/-- with no terminator in it, a non-empty slice is one piece -/
+theorem chunksTail_noTerm (term : Nat → Bool) (l : List Nat) (h : l.any term = false) (hne : l ≠ []) :
+    Pat.chunksTail term l = [l] := by
+  induction l with
+  | nil => exact absurd rfl hne
+  | cons t ts ih =>
+    simp only [List.any_cons, Bool.or_eq_false_iff] at h
+    unfold Pat.chunksTail
+    rw [if_neg (by simp [h.1])]
+    cases ts with
+    | nil => simp [Pat.chunksTail]
+    | cons u us => rw [ih h.2 (by simp)]
+
+/-- `splitGo` with `cur` collected so far, through a coding of the tokens under which the two terminator tests agree:
+the pieces `chunksTail` cuts, the first one with `cur` in front -/
+theorem splitGo_code (term : Kind → Bool) (term' : Nat → Bool) (code : Tok → Nat)
+    (hc : ∀ t, term t.kind = term' (code t)) (toks cur : List Tok) :
+    (splitGo term cur toks).map (List.map code) =
+      match Pat.chunksTail term' (toks.map code) with
+      | [] => if cur.isEmpty then [] else [cur.reverse.map code]
+      | c :: cs => (cur.reverse.map code ++ c) :: cs := by
+  induction toks generalizing cur with
+  | nil =>
+    simp only [splitGo, List.map_nil, Pat.chunksTail]
+    split <;> simp
+  | cons t ts ih =>
+    simp only [splitGo, List.map_cons]
+    unfold Pat.chunksTail
+    by_cases ht : term t.kind = true
+    · have ht' : term' (code t) = true := by rw [← hc]; exact ht
+      rw [if_pos ht, if_pos ht']
+      have := ih []
+      simp only [List.reverse_nil, List.map_nil, List.nil_append, List.isEmpty_nil, if_true] at this
+      have e : (splitGo term [] ts).map (List.map code) = Pat.chunksTail term' (ts.map code) := by
+        rw [this]; split <;> simp_all
+      simp [e]
+    · have ht' : ¬ term' (code t) = true := by rw [← hc]; exact ht
+      rw [if_neg ht, if_neg ht', ih (t :: cur)]
+      cases Pat.chunksTail term' (ts.map code) with
+      | nil => simp
+      | cons c cs => simp
+
+/-- **the two chunk iterators are one function**, seen through any coding of the tokens under which the terminator tests
+agree — on EVERY input (the empty one included: one empty piece on both sides) -/
+theorem split_code (term : Kind → Bool) (term' : Nat → Bool) (code : Tok → Nat)
+    (hc : ∀ t, term t.kind = term' (code t)) (toks : List Tok) :
+    (split term toks).map (List.map code) = Pat.iterSplit term' (toks.map code) := by
+  unfold split Pat.iterSplit
+  cases toks with
+  | nil => simp
+  | cons t ts =>
+    rw [if_neg (by simp)]
+    have h := splitGo_code term term' code hc (t :: ts) []
+    simp only [List.reverse_nil, List.map_nil, List.nil_append, List.isEmpty_nil, if_true] at h
+    split
+    · rw [h]
+      cases Pat.chunksTail term' ((t :: ts).map code) <;> rfl
+    · rename_i hany
+      rw [h, chunksTail_noTerm term' _ (by simpa using hany) (by simp)]
+
+/-! ## `run_on_chunk`: `Pat.runLoop` (kind codes, cursor and fuel) and `runOnChunkGo` (tokens, structural) -/
+
+/-- what `runOnChunkGo` does with the matches `Pat.runLoop` lists: `match_to_lint` on `&chunk[s..s + n]`, in order -/
+def lintMatches (f : List Char → List Tok → Except Panic (List RuleLint)) (src : List Char) (chunk : List Tok)
+    (ms : List (Nat × Nat)) : Except Panic (List RuleLint) :=
+  collectE (fun sn => f src ((chunk.drop sn.1).take sn.2)) ms
+
+/-- the matcher and the kind-code pattern answer the same on every non-empty suffix of the chunk -/
+def AgreeOn (m : Matcher) (p : Pat) (code : Tok → Nat) (src : List Char) (chunk : List Tok) : Prop :=
+  ∀ c, c < chunk.length → m src (chunk.drop c) = Pat.matchLen p ((chunk.drop c).map code)
+
+theorem runOnChunkGo_sim (m : Matcher) (p : Pat) (code : Tok → Nat) (src : List Char) (chunk : List Tok)
+    (hag : AgreeOn m p code src chunk) (f : List Char → List Tok → Except Panic (List RuleLint)) :
+    ∀ (ts : List Tok) (c skip fuel : Nat), chunk.drop c = ts → chunk.length ≤ c + skip + fuel →
+      (∀ ms, Pat.runLoop p (chunk.map code) fuel (c + skip) = .ok ms →
+        runOnChunkGo m f src skip ts = lintMatches f src chunk ms) ∧
+      (∀ e, Pat.runLoop p (chunk.map code) fuel (c + skip) = .error e →
+        ∃ e', runOnChunkGo m f src skip ts = .error e' ∧ ((∀ l, ∃ r, f src l = .ok r) → e' = e)) := by
+  intro ts
+  induction ts with
+  | nil =>
+    intro c skip fuel hd hfuel
+    have hc : chunk.length ≤ c := by
+      have := congrArg List.length hd
+      simp at this; omega
+    have hr : Pat.runLoop p (chunk.map code) fuel (c + skip) = .ok [] := by
+      cases fuel <;> simp only [Pat.runLoop, List.length_map] <;> rw [if_pos (by omega)]
+    rw [hr]
+    refine ⟨?_, ?_⟩
+    · intro ms h; cases h
+      cases skip <;> rfl
+    · intro e h; cases h
+  | cons t ts ih =>
+    intro c skip fuel hd hfuel
+    have hlen : c + (ts.length + 1) = chunk.length := by
+      have := congrArg List.length hd
+      simp at this; omega
+    have hd' : chunk.drop (c + 1) = ts := by
+      rw [← List.drop_drop, hd]; rfl
+    cases skip with
+    | succ s =>
+      simp only [runOnChunkGo]
+      have := ih (c + 1) s fuel hd' (by omega)
+      rw [show c + 1 + s = c + (s + 1) by omega] at this
+      exact this
+    | zero =>
+      cases fuel with
+      | zero => omega
+      | succ fuel =>
+        simp only [Nat.add_zero, runOnChunkGo, Pat.runLoop, List.length_map]
+        rw [if_neg (by omega)]
+        have hs : Pat.sliceFrom (chunk.map code) c = .ok ((t :: ts).map code) := by
+          unfold Pat.sliceFrom
+          rw [if_neg (by simp; omega), ← List.map_drop, hd]
+        rw [hs]
+        simp only []
+        have hm := hag c (by omega)
+        rw [hd] at hm
+        rw [← hm]
+        cases m src (t :: ts) with
+        | error e =>
+          simp only []
+          exact ⟨fun ms h => (by cases h), fun e' h => (by cases h; exact ⟨_, rfl, fun _ => rfl⟩)⟩
+        | ok n =>
+          simp only []
+          by_cases hn : n = 0
+          · rw [if_pos hn, if_neg (by simpa using hn)]
+            have := ih (c + 1) 0 fuel hd' (by omega)
+            exact this
+          · rw [if_neg hn, if_pos (by simpa using hn)]
+            by_cases hoob : c + n > chunk.length
+            · rw [if_pos hoob, if_pos (by simp; omega)]
+              exact ⟨fun ms h => (by cases h), fun e' h => (by cases h; exact ⟨_, rfl, fun _ => rfl⟩)⟩
+            · rw [if_neg hoob, if_neg (by simp; omega)]
+              have ih' := ih (c + 1) (n - 1) fuel hd' (by omega)
+              rw [show c + 1 + (n - 1) = c + n by omega] at ih'
+              cases hr : Pat.runLoop p (chunk.map code) fuel (c + n) with
+              | error e =>
+                obtain ⟨e', he', htot⟩ := ih'.2 e hr
+                simp only []
+                refine ⟨fun ms h => (by cases h), ?_⟩
+                intro e2 h2
+                cases h2
+                cases hf : f src ((t :: ts).take n) with
+                | error e1 =>
+                  refine ⟨e1, rfl, ?_⟩
+                  intro htotal
+                  obtain ⟨r, hr'⟩ := htotal ((t :: ts).take n)
+                  rw [hf] at hr'; cases hr'
+                | ok l =>
+                  simp only [he']
+                  exact ⟨e', rfl, htot⟩
+              | ok ms =>
+                have h1 := ih'.1 ms hr
+                simp only []
+                refine ⟨?_, fun e h => (by cases h)⟩
+                intro ms' h
+                cases h
+                rw [h1]
+                simp only [lintMatches, collectE, hd]
+
+/-! ### matchers and kind-code patterns that agree -/
+
+/-- a matcher and a kind-code pattern that answer the same on every token slice -/
+def Agree (m : Matcher) (p : Pat) (code : Tok → Nat) (src : List Char) : Prop :=
+  ∀ toks, m src toks = Pat.matchLen p (toks.map code)
+
+theorem Agree.agreeOn {m : Matcher} {p : Pat} {code : Tok → Nat} {src : List Char} (h : Agree m p code src)
+    (chunk : List Tok) : AgreeOn m p code src chunk := fun c _ => h (chunk.drop c)
+
+/-- the closure `|t, _| t.kind.is_word()` is `leaf 0` -/
+theorem kindAtom_isWord_agree (src : List Char) : Agree (kindAtom Kind.isWord) (.leaf 0) tokCode src := by
+  intro toks
+  cases toks with
+  | nil => simp [kindAtom, Pat.matchLen]
+  | cons t ts =>
+    simp only [kindAtom, List.map_cons, Pat.matchLen, tokCode, isWord_code]
+    simp
+
+/-- any closure over the kind that is a test of the kind code -/
+theorem kindAtom_agree (q : Kind → Bool) (k : Nat) (hq : ∀ kd, q kd = (kindCode kd == k)) (src : List Char) :
+    Agree (kindAtom q) (.leaf k) tokCode src := by
+  intro toks
+  cases toks with
+  | nil => simp [kindAtom, Pat.matchLen]
+  | cons t ts =>
+    simp only [kindAtom, List.map_cons, Pat.matchLen, tokCode, hq]
+    simp
+
+theorem whitespaceAtom_agree (src : List Char) : Agree whitespaceAtom .whitespace tokCode src := by
+  intro toks
+  simp only [whitespaceAtom, Pat.matchLen]
+  congr 1
+  induction toks with
+  | nil => rfl
+  | cons t ts ih =>
+    simp only [countWhile, List.map_cons, Pat.wsLen, ih]
+    have : t.kind.isWhitespace = Pat.isWs (tokCode t) := isWhitespace_code _
+    rw [this]
+
+/-- the matcher never answers more than it was given (the unwritten contract of `Pattern::matches`) -/
+def MContract (m : Matcher) (src : List Char) : Prop := ∀ toks n, m src toks = .ok n → n ≤ toks.length
+
+theorem seqGo_agree (code : Tok → Nat) (src : List Char) (prs : List (Matcher × Pat))
+    (h : ∀ x ∈ prs, Agree x.1 x.2 code src ∧ MContract x.1 src) :
+    ∀ (orig : List Tok) (acc : Nat), acc ≤ orig.length →
+      seqGo src (prs.map Prod.fst) acc (orig.drop acc) =
+        Pat.seqLoop (PatList.ofList (prs.map Prod.snd)) (orig.map code) acc := by
+  induction prs with
+  | nil => intro orig acc _; simp [seqGo, PatList.ofList, Pat.seqLoop]
+  | cons x prs ih =>
+    obtain ⟨m, p⟩ := x
+    have hmp : Agree m p code src ∧ MContract m src := h (m, p) List.mem_cons_self
+    have ih := ih (fun y hy => h y (List.mem_cons_of_mem _ hy))
+    intro orig acc hacc
+    simp only [List.map_cons, seqGo, PatList.ofList, Pat.seqLoop, Pat.sliceFrom, List.length_map]
+    rw [if_neg (by omega), ← List.map_drop]
+    simp only []
+    rw [← hmp.1 (orig.drop acc)]
+    cases hm : m src (orig.drop acc) with
+    | error e => rfl
+    | ok n =>
+      simp only []
+      have hn := hmp.2 _ _ hm
+      rw [List.length_drop] at hn
+      by_cases h0 : n = 0
+      · rw [if_pos h0, if_pos h0]
+      · rw [if_neg h0, if_neg h0, if_neg (by rw [List.length_drop]; omega), List.drop_drop]
+        exact ih orig (acc + n) (by omega)
+
+/-- **`SequencePattern` in the two models**: children that agree and keep the contract make sequences that agree -/
+theorem seqPat_agree (code : Tok → Nat) (src : List Char) (prs : List (Matcher × Pat))
+    (h : ∀ x ∈ prs, Agree x.1 x.2 code src ∧ MContract x.1 src) :
+    Agree (seqPat (prs.map Prod.fst)) (.seq (PatList.ofList (prs.map Prod.snd))) code src := by
+  intro toks
+  have := seqGo_agree code src prs h toks 0 (Nat.zero_le _)
+  simp only [List.drop_zero] at this
+  rw [Pat.matchLen]
+  exact this
+
+theorem eitherGo_agree (code : Tok → Nat) (src : List Char) (prs : List (Matcher × Pat))
+    (h : ∀ x ∈ prs, Agree x.1 x.2 code src) (toks : List Tok) :
+    ∀ longest, eitherGo src toks (prs.map Prod.fst) longest =
+      Pat.eitherLoop (PatList.ofList (prs.map Prod.snd)) (toks.map code) longest := by
+  induction prs with
+  | nil => intro l; simp [eitherGo, PatList.ofList, Pat.eitherLoop]
+  | cons x prs ih =>
+    obtain ⟨m, p⟩ := x
+    have hmp : Agree m p code src := h (m, p) List.mem_cons_self
+    have ih := ih (fun y hy => h y (List.mem_cons_of_mem _ hy))
+    intro l
+    simp only [List.map_cons, eitherGo, PatList.ofList, Pat.eitherLoop]
+    rw [← hmp toks]
+    cases m src toks with
+    | error e => rfl
+    | ok n => exact ih _
+
+/-- **`EitherPattern` in the two models** (no slicing: no contract needed) -/
+theorem eitherPat_agree (code : Tok → Nat) (src : List Char) (prs : List (Matcher × Pat))
+    (h : ∀ x ∈ prs, Agree x.1 x.2 code src) :
+    Agree (eitherPat (prs.map Prod.fst)) (.either (PatList.ofList (prs.map Prod.snd))) code src := by
+  intro toks
+  rw [Pat.matchLen]
+  exact eitherGo_agree code src prs h toks 0
+
+theorem kindAtom_contract (q : Kind → Bool) (src : List Char) : MContract (kindAtom q) src := by
+  intro toks n h
+  cases toks with
+  | nil => simp [kindAtom] at h; cases h; simp
+  | cons t ts =>
+    simp only [kindAtom] at h
+    cases h
+    simp only [List.length_cons]
+    split <;> omega
+
+theorem whitespaceAtom_contract (src : List Char) : MContract whitespaceAtom src := by
+  intro toks n h
+  simp only [whitespaceAtom] at h
+  cases h
+  exact countWhile_le _ toks
 
 end Harper.Rules
